@@ -40,7 +40,7 @@ extern "C" int vf_run_case(const uint8_t * data, size_t size)
    }
    if (size < 2) return 0;
    vf::BS bs(data, size);
-   GenOpts o; o.commonRepertoire = true; o.allowNonFlattenable = false; o.pythonSafe = bs.flip(); o.maxDepth = 3; o.maxTopOps = 14; o.allowBursts = (bs.u8()%6 == 0);
+   GenOpts o; o.commonRepertoire = true; o.allowNonFlattenable = false; o.pythonSafe = bs.flip(); o.maxDepth = 3; o.maxTopOps = 14; const uint8_t cfg = bs.u8(); o.allowBursts = (cfg%6 == 0); o.allowZeroLenRaw = ((cfg>>3)%4 == 0);
    Generator gen(bs, o); Message msg; MMsg mod; gen.Gen(0, msg, mod);
    const GenStats & st = gen.st;
 
@@ -114,6 +114,7 @@ extern "C" int vf_run_case(const uint8_t * data, size_t size)
    }
 
    uint32 ntypes = 0; for (uint32 m = st.typesMask; m; m >>= 1) ntypes += (m&1);
+   if (st.hasZeroLenRaw) vf::Count("case_with_zero_length_raw_item");
    vf::Count(o.pythonSafe ? "case_python_safe" : "case_c_only");
    if (st.maxDepth >= 1) vf::Count("case_nesting_ge_1");
    if (ntypes >= 3) vf::Count("case_three_or_more_field_types");
